@@ -294,19 +294,30 @@ def run_volume_mc(case, ctx):
     ctx.cls("siblings-reordered" if reordered else "sibling-order-kept", "moved" if case["move"] else "in-place",
             f"daughters:{len(ch[1])}")
     ctx.nontrivial(reordered)
-    t1, t2 = _tree_from_rows(rows), _tree_from_rows(twin)
+    # two twins, judged separately: the same pose under another numbering, and the rigidly moved neuron
+    same_pose = [None] * n
+    for i in range(n):
+        same_pose[new[i]] = [rows[i][0], rows[i][1], rows[i][2], rows[i][3], new_parents[new[i]]]
+    t1, t2 = _tree_from_rows(rows), _tree_from_rows(same_pose)
     v_low = float(ctx.lib("get_volume[accuracy=3]", get_volume, t1, accuracy=3))
     v1 = float(ctx.lib("get_volume[default]", get_volume, t1))
-    v2 = float(ctx.lib("twin/get_volume[default]", get_volume, t2))
+    v2 = float(ctx.lib("renumbered/get_volume[default]", get_volume, t2))
     if v_low - v1 > 0.01 * v1:
         ctx.cls("daughter-cones-overlap>1%")
     tol = 0.005 * max(v1, v2)  # Monte-Carlo noise of the default level is ~3e-4 relative (1e6 samples per pair)
-    ctx.check(abs(v1 - v2) <= tol, "volume/default-level-unchanged-by-renumbering-and-motion",
-              lambda: f"{v1!r} vs {v2!r} (relative {abs(v1 - v2) / max(v1, v2):.3g}); nodes {rows}, perm {case['perm']}, "
-                      f"move {case.get('axis')}, {case.get('theta')}, {case.get('offset')}")
+    ctx.check(abs(v1 - v2) <= tol, "volume/default-level-unchanged-by-renumbering",
+              lambda: f"{v1!r} vs {v2!r} (relative {abs(v1 - v2) / max(v1, v2):.3g}); nodes {rows}, perm {case['perm']}")
     if (len(rows) + len(case["perm"])) % 4 == 0:
-        f2 = float(np.asarray(ctx.lib("twin/extract_feature[volume]", lambda: extract_feature(t2).get("volume"))).reshape(-1)[0])
-        ctx.check(abs(f2 - v1) <= tol, "volume/feature-front-end-unchanged", lambda: f"{f2!r} vs {v1!r}")
+        f2 = float(np.asarray(ctx.lib("renumbered/extract_feature[volume]", lambda: extract_feature(t2).get("volume"))).reshape(-1)[0])
+        ctx.check(abs(f2 - v1) <= tol, "volume/feature-front-end-unchanged-by-renumbering", lambda: f"{f2!r} vs {v1!r}")
+    if case["move"]:
+        t3 = _tree_from_rows(twin)
+        l3 = float(ctx.lib("moved/get_volume[accuracy=3]", get_volume, t3, accuracy=3))
+        ctx.check(abs(l3 - v_low) <= 1e-3 * v_low, "volume/analytic-level-unchanged-by-rigid-motion", lambda: f"{v_low!r} vs {l3!r}")
+        v3 = float(ctx.lib("moved/get_volume[default]", get_volume, t3))
+        ctx.check(abs(v1 - v3) <= 0.005 * max(v1, v3), "volume/default-level-unchanged-by-rigid-motion",
+                  lambda: f"{v1!r} vs {v3!r} (relative {abs(v1 - v3) / max(v1, v3):.3g}); nodes {rows}, perm {case['perm']}, "
+                          f"axis {case.get('axis')}, angle {case.get('theta')}, offset {case.get('offset')}")
 
 
 SUBCHECKS = [
